@@ -128,13 +128,17 @@ func verifHarness_C11_dispatch(kind int, member int, target int) {
 		}
 	}
 	item := &message.MessageRaw{ID: 7, Payload: []byte{1}}
+	var tch *Channel // target 4: no channel at all (a routing table miss)
+	if target < 4 {
+		tch = chs[target]
+	}
 	switch kind {
 	case 0:
 		verifChanPush(n.chWriteAll, interface{}(item))
 	case 1:
-		verifChanPush(n.chWriteTo, writeToReq{chs[target], item})
+		verifChanPush(n.chWriteTo, writeToReq{tch, item})
 	default:
-		verifChanPush(n.chWriteExcept, writeExceptReq{chs[target], item})
+		verifChanPush(n.chWriteExcept, writeExceptReq{tch, item})
 	}
 	blocked := verifRunUntilBlocked(func() { n.run() })
 	verifAssert(blocked, "C11/K1/loop-waits-for-next-request")
